@@ -160,6 +160,10 @@ def run_case(case):
         grids[cn], nodes[cn] = _grid(kind, CONT_SIZES[j], j)
     coarse = len(cnames) >= 3
     lookup = {n: D(k) for n, k in zip(rnames + dnames, list(rshape) + dsizes)}
+    if case["block"] == "B":
+        # the ORDER of the entries of lookup_info / interpolation_info carries no meaning: reversed on purpose
+        lookup = dict(reversed(list(lookup.items())))
+        grids = dict(reversed(list(grids.items())))
     axis_names = (["state_index"] if rnames else []) + dnames + cnames
     info = SpaceInfo(
         axis_names=axis_names,
